@@ -133,6 +133,15 @@ macro_rules | `(tactic| ftr_lemma) => `(tactic| exact FTr.comprResult _ _)
 
 /-! ### the modelled built-ins -/
 
+theorem FTr.dateResM (r : DateRes) (pos : Pos) : FTr s0 (dateResM r pos) := by
+  unfold Ckl.dateResM; ftr_auto
+macro_rules | `(tactic| ftr_lemma) => `(tactic| exact FTr.dateResM _ _)
+
+theorem FTr.callDate (name : String) (args : List (String × RVal)) (pos : Pos) (m : EvalM RVal)
+    (h : callDate name args pos = some m) : FTr s0 m := by
+  unfold Ckl.callDate at h
+  split at h <;> first | (injection h with h; subst h; exact FTr.dateResM _ _) | (cases h)
+
 theorem FTr.nativeAdd (a b : RVal) (pos : Pos) : FTr s0 (nativeAdd a b pos) := by
   unfold Ckl.nativeAdd; ftr_auto
 macro_rules | `(tactic| ftr_lemma) => `(tactic| exact FTr.nativeAdd _ _ _)
@@ -159,7 +168,7 @@ theorem FTr.callPure (name : String) (args : List (String × RVal)) (d : Option 
     (m : EvalM RVal) (h : callPure name args d pos = some m) : FTr s0 m := by
   unfold Ckl.callPure at h
   split at h
-  all_goals (cases h)
+  all_goals first | (cases h) | (exact FTr.callDate _ _ _ _ h)
   all_goals ftr_auto
 
 
